@@ -15,12 +15,13 @@ NL = 10
 
 
 class Viol:
-    __slots__ = ('cls', 'seq', 'detail')
+    __slots__ = ('cls', 'seq', 'detail', 'ctx')
 
-    def __init__(self, cls, seq, detail):
+    def __init__(self, cls, seq, detail, ctx=None):
         self.cls = cls
         self.seq = seq
         self.detail = detail
+        self.ctx = ctx
 
     def __repr__(self):
         return '%s@%d: %s' % (self.cls, self.seq, self.detail)
@@ -99,8 +100,8 @@ class Model:
         self.check_overread = False
 
     # ------------------------------------------------------------ helpers
-    def v(self, cls, ev, detail):
-        self.viol.append(Viol(cls, ev.get('seq', -1), detail))
+    def v(self, cls, ev, detail, ctx=None):
+        self.viol.append(Viol(cls, ev.get('seq', -1), detail, ctx))
 
     def stat(self, k, n=1):
         self.stats[k] = self.stats.get(k, 0) + n
@@ -690,9 +691,24 @@ class Model:
                     prefix = b''
                     etext = bytes(b.held[:etlen])
                     self.stat('more-prefix-dropped-at-wrap')
+                elif (rule == erule and common.unhex(thex) is not None and len(prefix) > 0
+                      and common.unhex(thex).endswith(bytes(b.held[:etlen])) and tlen < len(etext) and not self.rejecting):
+                    # right rule, right new text, but the text kept by yymore() is not (all) there
+                    self.v('more', ev, 'yymore prefix %s not kept: yytext=%s len=%d, expected %s len=%d' % (
+                        common.hexs(bytes(prefix)), thex, tlen, common.hexs(etext), len(etext)))
+                    raw1 = common.unhex(thex)
+                    prefix = raw1[:len(raw1) - etlen]
+                    etext = raw1
                 else:
-                    self.v('token', ev, 'rule=%d text=%s len=%d; model expects rule=%d text=%s len=%d (start=%d bol=%d%s)' % (
-                        rule, thex, tlen, erule, common.hexs(etext), len(etext), self.start, bolv, ' after REJECT' if self.rejecting else ''))
+                    raw0 = common.unhex(thex)
+                    tctx = None
+                    if not self.rejecting and raw0 is not None and raw0[:len(prefix)] == bytes(prefix):
+                        tctx = {'held': bytes(b.held), 'start': self.start, 'bol': bool(bolv), 'rule': rule,
+                                'text': common.hexs(raw0[len(prefix):])}
+                    self.v('token-after-reject' if self.rejecting else 'token', ev,
+                           'rule=%d text=%s len=%d; model expects rule=%d text=%s len=%d (start=%d bol=%d%s)' % (
+                               rule, thex, tlen, erule, common.hexs(etext), len(etext), self.start, bolv,
+                               ' after REJECT' if self.rejecting else ''), tctx)
                     # resynchronise on what the scanner says it consumed
                     raw = common.unhex(thex)
                     if raw is None:
